@@ -97,7 +97,14 @@ Theorem Indexer_model_is_source_partial :
      (forall i args r s, src_resolve_class_ref_as_multiclass (index_args n) (m_check_template_args) i args r s =
                          resolve_class_ref_as_multiclass n (CRef i args r) s) /\
      (forall ps s, snd (src_ix_ParentClassList (resolve_class_ref_as_class n) (resolve_class_ref_as_multiclass n) ps s) =
-                   snd (index_parents n ps s))).
+                   snd (index_parents n ps s)) /\
+     (forall v s, src_ix_Value (index_inner n) v s = index_value (S n) v s) /\
+     (forall x s, src_ix_InnerValue (index_simple n) x s = index_inner (S n) x s) /\
+     (forall dag_split cond_split sv s,
+        (forall vs, opt_list (fst (dag_split vs)) ++ snd (dag_split vs) = vs) ->
+        (forall vs, flat_map (fun c : option value * option value => opt_list (fst c) ++ opt_list (snd c)) (cond_split vs) = vs) ->
+        src_ix_SimpleValue dag_split cond_split (index_value n) (index_args n) (m_BangOperator n) m_check_template_args sv s =
+        index_simple (S n) sv s)).
 Proof. exact indexer_model_is_source_partial. Qed.
 
 Print Assumptions Indexer_model_is_source_partial.
